@@ -14,10 +14,10 @@ GEN: programs from
     different assignments; labelled parameter lists called with the labels in every order;
   * Typing_sim - simulation: modules of three functions, budget 6 each;
   * Typing_un_<p> - a production (group) re-enabled that triggers a recorded finding (run: unmasked:<p>): lambda_annot,
-    call_gen_rec, late_use (access on the parameter of a lambda argument) by
-    simulation; call_rec_labels (recursive calls to functions with labelled parameters) exhaustively over the labelled
-    parameter lists
-are rendered with the functions in a seeded order and the prelude before or after them; hover on every binder, every
+    call_gen_rec, late_use (access on the parameter of a lambda argument) by simulation; call_rec_labels (recursive
+    calls to functions with labelled parameters) exhaustively over the labelled parameter lists; shade_c (field of a
+    library record whose type is a library type) exhaustively
+are rendered with the functions in a seeded order and the prelude before or after them, in a module that imports the library module pal; hover on every binder, every
 generated function and every function of the prelude is compared with the specification's type (whitespace-normalised,
 type variables renamed by first occurrence, so fn(a, b) and fn(a, a) stay different)."""
 import json, os
